@@ -506,6 +506,16 @@ pub fn replay(behaviours: &str, k: usize, random_maps: usize, trace: &mut Ndjson
     }
     // files whose names are equal under some normalisation (leading zeros of a number, letter case, composed /
     // decomposed accents, `-` / `_`, a trailing dot): different files all the same, each listed under its own name
+    // forge scripts and tests, numeric prefixes (one beyond 32 bits): names like any other at this level
+    let special = ["Deploy.s.sol", "Vault.t.sol", "A.T.SOL", "Mock.sol", "3_Vault.sol", "100_Router.sol", "20240115093000_Init.sol", "007.sol", "4294967296_x.sol",
+                   "1.sol", "10.sol", "2.sol"];
+    for cat in CATS {
+        let ps = patterns_of(cat);
+        for (pi, p) in ps.iter().enumerate().take(2) {
+            let files: Vec<(String, Vec<i32>)> = special.iter().enumerate().map(|(i, n)| (n.to_string(), vec![(i * 2 + pi + 1) as i32, (60 + i) as i32])).collect();
+            cases.push((cat.to_string(), vec![(p.clone(), files)]));
+        }
+    }
     let lookalikes = ["Vault1.sol", "Vault01.sol", "Vault001.sol", "Vault10.sol", "Vault2.sol", "token.sol", "Token.sol", "TOKEN.sol",
                       "caf\u{e9}.sol", "cafe\u{301}.sol", "A-b.sol", "A_b.sol", "A b.sol", "x.sol", "x.sol.", "x..sol", "X.SOL"];
     for cat in CATS {
@@ -562,6 +572,8 @@ pub fn replay(behaviours: &str, k: usize, random_maps: usize, trace: &mut Ndjson
                     json!({"v": findings_json(fv), "o": findings_json(fo), "q": findings_json(fq)}),
                 );
             }
+            // what the file holds after the run over the longer report is read back like the final one (below)
+            let text_after_longer = text.clone();
             // ... and over a report of exactly the SAME length with other content (same findings in a file of another
             // name, lines one further down): a size comparison must not pass for "already written"
             let flipped: String = clean_text
@@ -589,19 +601,21 @@ pub fn replay(behaviours: &str, k: usize, random_maps: usize, trace: &mut Ndjson
                     json!({"v": findings_json(fv), "o": findings_json(fo), "q": findings_json(fq)}),
                 );
             }
-            // (the file as left by the last run is the one that is read back below)
-            let parts = reader.parse_file(&text);
-            out.evaluations += 1;
-            let mut present = serde_json::Map::new();
-            let mut nonempty = serde_json::Map::new();
-            for (cat, f) in [("vulnerabilities", fv), ("optimizations", fo), ("qa", fq)] {
-                present.insert(cat.to_string(), json!(parts.contains_key(cat)));
-                nonempty.insert(cat.to_string(), json!(!f.is_empty()));
-                if let Some(items) = parts.get(cat) {
-                    trace.push(&json!({"k": "render", "cat": cat, "findings": findings_json(f), "items": items, "via": "generate_report"}));
+            // (the file as left by the run over the longer report and by the last run is read back)
+            for (via, left) in [("generate_report-over-a-longer-report", &text_after_longer), ("generate_report", &text)] {
+                let parts = reader.parse_file(left);
+                out.evaluations += 1;
+                let mut present = serde_json::Map::new();
+                let mut nonempty = serde_json::Map::new();
+                for (cat, f) in [("vulnerabilities", fv), ("optimizations", fo), ("qa", fq)] {
+                    present.insert(cat.to_string(), json!(parts.contains_key(cat)));
+                    nonempty.insert(cat.to_string(), json!(!f.is_empty()));
+                    if let Some(items) = parts.get(cat) {
+                        trace.push(&json!({"k": "render", "cat": cat, "findings": findings_json(f), "items": items, "via": via}));
+                    }
                 }
+                trace.push(&json!({"k": "file", "present": present, "nonempty": nonempty, "garbage": parts.contains_key("?"), "via": via}));
             }
-            trace.push(&json!({"k": "file", "present": present, "nonempty": nonempty, "garbage": parts.contains_key("?")}));
         }
         let _ = std::fs::remove_file("solstat_report.md");
     }
